@@ -201,4 +201,105 @@ theorem sinv_step {h0 : Heap} {w0 : Wit} {x N0 : Nat} {h h2 : Heap} {w : Wit} {s
         simp only [heq, if_true]
         exact ⟨π, hπ, by rw [hpop.1]⟩
 
+theorem copyLoop_sinv {h0 : Heap} {w0 : Wit} {x N0 : Nat} (hwf0 : WF h0 w0) :
+    ∀ (ds : List Nat) (h h' : Heap) (w : Wit) (st : List (Nat × Nat)) (srcs : List Nat),
+    CInv h0 N0 h w st srcs → SInv h0 w0 x N0 h st srcs → 1 ≤ srcs.length →
+    (∀ d ∈ ds, d < N0 ∧ h0.kind d ≠ .soup) →
+    (∀ i d, (srcs ++ ds)[i]? = some d → w0.tree d = w0.tree x ∧ w0.pos d = w0.pos x + i) →
+    (srcs ++ ds).length ≤ w0.size x →
+    copyLoop N0 h st ds = .ok h' →
+    ∃ w' st', CInv h0 N0 h' w' st' (srcs ++ ds) ∧ SInv h0 w0 x N0 h' st' (srcs ++ ds) := by
+  intro ds
+  induction ds with
+  | nil =>
+    intro h h' w st srcs inv sinv _ _ _ _ hl
+    simp only [copyLoop] at hl; cases hl
+    exact ⟨w, st, by simpa using inv, by simpa using sinv⟩
+  | cons d ds ih =>
+    intro h h' w st srcs inv sinv hlen1 hds hall hsz hl
+    simp only [copyLoop] at hl
+    cases hs : copyStep h N0 st d with
+    | error e => simp only [hs] at hl; cases hl
+    | ok r =>
+      obtain ⟨h1, st1⟩ := r
+      simp only [hs] at hl
+      have hdd := hds d (by simp)
+      obtain ⟨w1, inv1⟩ := cinv_step inv hdd.1 hdd.2 hs
+      have hdpos := hall srcs.length d (by simp)
+      have hin : w0.inSub x d := by
+        refine ⟨hdpos.1, by omega, ?_⟩
+        rw [List.length_append] at hsz; simp only [List.length_cons] at hsz; omega
+      have sinv1 := sinv_step hwf0 inv sinv hdd.1 hdd.2 hin hdpos.2 hlen1 hs
+      have heq : srcs ++ d :: ds = (srcs ++ [d]) ++ ds := by simp
+      rw [heq] at hall hsz ⊢
+      exact ih h1 h' w1 st1 (srcs ++ [d]) inv1 sinv1 (by simp) (fun e he => hds e (by simp [he])) hall hsz hl
+
+/-- the element of the document order of `x` that stands at a given position of the witness -/
+theorem docOrder_at {h : Heap} {w : Wit} (hwf : WF h w) (x : Nat) {π : Nat} (hin : w.inSub x π) :
+    (docOrder h x)[w.pos π - w.pos x]? = some π := by
+  have hsz : w.size x ≤ h.cap + 1 := by have := hwf.size_cap x; omega
+  obtain ⟨hlen, hpos⟩ : (docOrder h x).length = w.size x ∧ ∀ j (hj : j < (docOrder h x).length),
+      w.pos (docOrder h x)[j] = w.pos x + j ∧ w.tree (docOrder h x)[j] = w.tree x := pre_consec' hwf h.cap x hsz
+  have hj : w.pos π - w.pos x < (docOrder h x).length := by rw [hlen]; have := hin.2.1; have := hin.2.2; omega
+  rw [List.getElem?_eq_getElem hj]
+  congr 1
+  have := hpos _ hj
+  exact hwf.inj _ _ (by rw [this.2, hin.1]) (by have := hin.2.1; omega)
+
+/-- **the finished loop, both sides**: the parent of the clone of `d` is the clone of the parent of `d` -/
+theorem copy_parents {h h' : Heap} {x c : Nat} (hg : Good2 h) (hc : copy h x = .ok (h', c)) :
+    ∀ i d, 1 ≤ i → (docOrder h x)[i]? = some d →
+      ∃ π j, h.parent d = some π ∧ (docOrder h x)[j]? = some π ∧ j < i ∧ h'.parent (h.next + i) = some (h.next + j) := by
+  obtain ⟨⟨w, hwf⟩, hstr⟩ := hg
+  have hsz : w.size x ≤ h.cap + 1 := by have := hwf.size_cap x; omega
+  obtain ⟨hlen, hpos⟩ : (docOrder h x).length = w.size x ∧ ∀ j (hj : j < (docOrder h x).length),
+      w.pos (docOrder h x)[j] = w.pos x + j ∧ w.tree (docOrder h x)[j] = w.tree x := pre_consec' hwf h.cap x hsz
+  intro i d hi1 hid
+  have hilt : i < (docOrder h x).length := (List.getElem?_eq_some_iff.mp hid).1
+  unfold copy at hc
+  split at hc
+  · obtain ⟨ds, hds, hdo, _⟩ := descendants_docOrder hwf x
+    simp only [hds] at hc
+    cases hl : copyLoop h.next (alloc h (h.kind x) (h.val x)).1 [] ds with
+    | error e => simp only [hl] at hc; cases hc
+    | ok h1 =>
+      simp only [hl, Except.ok.injEq, Prod.mk.injEq] at hc
+      obtain ⟨e1, e2⟩ := hc
+      subst e1 e2
+      have hold := docOrder_tail_old hwf x
+      have hall : ∀ i d, ([x] ++ ds)[i]? = some d → w.tree d = w.tree x ∧ w.pos d = w.pos x + i := by
+        intro i d hi
+        have heq : [x] ++ ds = docOrder h x := by rw [hdo]; rfl
+        rw [heq] at hi
+        obtain ⟨hi', rfl⟩ := List.getElem?_eq_some_iff.mp hi
+        have := hpos i hi'
+        exact ⟨this.2, this.1⟩
+      have hszl : ([x] ++ ds).length ≤ w.size x := by
+        have heq : [x] ++ ds = docOrder h x := by rw [hdo]; rfl
+        rw [heq]; omega
+      obtain ⟨w', st', inv, sinv⟩ := copyLoop_sinv hwf ds _ _ w [] [x] (cinv_init hwf hstr x)
+        (sinv_init h w x h.next _) (by simp) (fun d hd => hold d (by rw [hdo]; simpa using hd)) hall hszl hl
+      have heq : [x] ++ ds = docOrder h x := by rw [hdo]; rfl
+      rw [heq] at sinv
+      obtain ⟨π, hp1, hp2⟩ := sinv.par i d hid hi1
+      have hdi := hpos i hilt
+      have hdeq : (docOrder h x)[i] = d := by
+        have := List.getElem?_eq_getElem hilt; rw [hid] at this; exact (Option.some.inj this).symm
+      have hind : w.inSub x d := by
+        refine ⟨by rw [← hdeq]; exact hdi.2, by rw [← hdeq]; omega, ?_⟩
+        rw [← hdeq]; omega
+      have hxd : x ≠ d := by
+        intro hh; subst hh
+        have : w.pos (docOrder h x)[i] = w.pos x := by rw [hdeq]
+        omega
+      have hinπ := (inSub_parent hwf hp1 x).mp ⟨hxd, hind⟩
+      have hπd := wf_parent_pos' hwf hp1
+      refine ⟨π, w.pos π - w.pos x, hp1, docOrder_at hwf x hinπ, ?_, hp2⟩
+      have : w.pos d = w.pos x + i := by rw [← hdeq]; exact hdi.1
+      omega
+  · rename_i hnt
+    have hk : h.kids x = [] := hwf.str_leaf x (by simpa using hnt)
+    have : docOrder h x = [x] := by unfold docOrder; cases h.cap <;> simp [pre, hk]
+    rw [this] at hilt; simp at hilt; omega
+
 end BS.Heap
